@@ -367,6 +367,7 @@ func (m *Machine) check(c *sym.Term, id string, pos string) {
 	}
 	m.W.noteAssertion(m.Spec.Entry, id)
 	if c.IsTrue() {
+		m.W.noteTrivial(m.Spec.Entry, id)
 		return
 	}
 	neg := m.F.Not(c)
